@@ -53,6 +53,9 @@ func ixHandlerRead(ctx context.Context, x *hw.Idx, sh *search.Handler, w *ixWorl
 		for _, b := range w.orphans {
 			known[b.Ref] = true
 		}
+		for _, b := range w.doomed {
+			known[b.Ref] = true
+		}
 		seen := map[int]bool{}
 		var out []ixRec
 		for _, it := range rr.Recent {
